@@ -39,7 +39,13 @@ LEAVES = [
     ("Register", "cache_conflict", "_cache.py", "DNSCache.current_entry_with_name_and_alias", ("if", "record.type", 0),
      [P("record.type", "rtype"), P("record.is_expired(now)", "expired", "bool"), P("cast(DNSPointer, record).alias == alias", "alias_eq", "bool")],
      "bool", {}),
-    # ---- registry.py
+    # D19 repair: the synchronous wrapper waits for the goodbye task (`await_awaitable`), like register_service / update_service
+    ("Register", "sync_unregister_awaits_goodbyes", "_core.py", "Zeroconf.unregister_service", ("has_call", "await_awaitable", 1),
+     [], "bool", {}),
+    ("Register", "sync_register_awaits_announcements", "_core.py", "Zeroconf.register_service", ("has_call", "await_awaitable", 1),
+     [], "bool", {}),
+    ("Register", "sync_update_awaits_announcements", "_core.py", "Zeroconf.update_service", ("has_call", "await_awaitable", 1),
+     [], "bool", {}),
     # the registry is keyed by name: removal is by key, never by object identity (an equal-but-distinct ServiceInfo, or the
     # handle from before update_service, withdraws the service)
     ("Register", "registry_remove_by_identity", "_services/registry.py", "ServiceRegistry.async_remove", ("has_identity_test",),
